@@ -108,7 +108,12 @@ FAMILIES = [
     # activity coefficients AND real Poynting correction factors (K = pcf·Psat·γ/(φ·P), pcf depends on the pressure)
     ('alcP', ['Methanol', 'Ethanol', '1-Propanol', '1-Butanol'], 'poynting'),
     ('hcP', ['Hexane', 'Heptane', 'Octane', 'Toluene'], 'poynting'),
+    # the solute keeps the library's DEFAULT N_solutes (0): it does not count as a component of the equilibrium (one volatile
+    # chemical + solute takes the single-chemical setters) but it carries enthalpy and entropy
+    ('alcS0', ['Methanol', 'Ethanol', '1-Propanol', '1-Butanol'], 'family-s0'),
+    ('mixIS0', ['Water', 'Ethanol', 'Acetone', 'Hexane', 'Toluene'], 'ideal-s0'),
 ]
+S0_PACKAGES = (11, 12)
 
 
 def setup():
@@ -124,7 +129,8 @@ def setup():
     for name, ids, kind in FAMILIES:
         O2 = tmo.Chemical('O2', phase='g')
         G = tmo.Chemical('Glucose', phase='l', default=True)
-        G.N_solutes = 1            # a solute that dilutes the liquid (default 0 would make it invisible to VLE)
+        if kind.endswith('-s0'): kind = kind[:-3]
+        else: G.N_solutes = 1      # a solute that dilutes the liquid (the default 0 makes it invisible to the equilibrium)
         objs = [tmo.Chemical(i[0], search_ID=i[1]) if isinstance(i, tuple) else i for i in ids]
         ids = [i[0] if isinstance(i, tuple) else i for i in ids]
         chems = tmo.Chemicals(objs + [O2, G], cache=True)
@@ -594,13 +600,22 @@ class Run:
                     self.fail('phase-boundary:one:expected-vapour', f'single chemical at P={b} < Psat={ps}: liquid flow {l1[0]}')
 
         # ---------------- single chemical, H / S specified: the lever rule ---------------
-        if ncase == 'one' and kb in ('H', 'S') and two and err is None:
+        others_present = bool((snap[0] + snap[1]).sum() - mol.sum() > 0)
+        # (S is not linear in the split when another species shares a phase with the chemical — entropy of mixing —, so the
+        # lever rule is only the first guess there; H is linear under thermosteam's ideal mixing rules)
+        if ncase == 'one' and kb in ('H', 'S') and two and err is None and (kb == 'H' or not others_present):
             # H (S) of the all-liquid and the all-vapour stream at the returned T, P, from the mixture model directly
             tot = snap[0] + snap[1]
             zero = np.zeros_like(tot)
-            cl = restore(th, (tot, zero, T1, P1)); cg = restore(th, (zero, tot, T1, P1))
+            # only the chemical in equilibrium changes phase; everything else keeps the phase the flash gave it
+            L1_, G1_ = arr(s.imol['l']).copy(), arr(s.imol['g']).copy()
+            i0 = idx[0]; m0 = L1_[i0] + G1_[i0]
+            Lb, Gb = L1_.copy(), G1_.copy(); Lb[i0], Gb[i0] = m0, 0.
+            Ld, Gd = L1_.copy(), G1_.copy(); Ld[i0], Gd[i0] = 0., m0
+            cl = restore(th, (Lb, Gb, T1, P1)); cg = restore(th, (Ld, Gd, T1, P1))
             Xb = float(cl.H if kb == 'H' else cl.S); Xd = float(cg.H if kb == 'H' else cg.S)
-            self.emit(f'lever {fl(b)} {fl(Xb)} {fl(Xd)} {fl(mol[0])}', f'lv={fl(l1[0])} gv={fl(g1[0])}')
+            # (as fractions of the chemical's flow: the comparison is then independent of the scale of the feed)
+            self.emit(f'lever {fl(b)} {fl(Xb)} {fl(Xd)} {fl(1.0)}', f'lv={fl(l1[0] / mol[0])} gv={fl(g1[0] / mol[0])}')
             self.tags.append('lever')
 
         # ---------------- TP branch line ------------------------------------------
@@ -704,7 +719,7 @@ class Run:
         if kb == 'H' and hs_ok:
             r = abs(float(s.H) - b) / Fm
             tol = 1e-6
-            if ka == 'T' and r > tol and spec_ok:
+            if ka == 'T' and r > tol and spec_ok and ncase == 'many':
                 tol = max(tol, self.bracket_width('H', a, P1))
             if r > tol:
                 sfx = suffix(); self.last_sfx.add(sfx)
@@ -717,7 +732,7 @@ class Run:
             # in the heat-capacity integrals) that is measured per chemical at set-up; the allowance is 1e-5 + 4 × the largest
             # noise among the chemicals present, never more than the former blanket 3e-4
             tol = min(3e-4, 1e-5 + 4 * max([S_NOISE.get(id(th.chemicals.tuple[i]), 0.) for i in idx] or [0.])) if ka == 'P' else 2e-6
-            if ka == 'T' and r > tol and spec_ok:
+            if ka == 'T' and r > tol and spec_ok and ncase == 'many':
                 tol = max(tol, self.bracket_width('S', a, P1))
             if r > tol:
                 sfx = suffix()
@@ -783,7 +798,18 @@ class Run:
                 if lo != lo or hi != hi:
                     self.tags.append('bracket-raised'); lo, hi = 0., 1.
                 if not (min(lo, hi) - 1.5e-6 <= b <= max(lo, hi) + 1.5e-6) or not (min(lo, hi) - 1e-4 <= Vr <= max(lo, hi) + 1e-4):
-                    self.fail(unconv_sig(f'V-not-met:{pair}', unconv), f'specified V={b}, result V={Vr}; V at ∓resolution: {lo}, {hi} (T={T1}, P={P1})')
+                    nb = ''
+                    try:
+                        chs_ = [th.chemicals.tuple[i] for i in idx]
+                        Ps_ = np.array([c.Psat(T1) for c in chs_], float)
+                        Pb_, Pd_ = own_bubble_dew(th, chs_, mol / mol.sum(), Ps_, T1)
+                        # narrow-boiling mixture: the whole two-phase region spans < 15 % in pressure, so V moves by ~1e-3
+                        # for a change of K within the inner tolerance K_tol, and warm-started inner solves of the outer
+                        # iteration land on a different branch than a fresh T,P flash (hysteresis); documented miss ≤ 5e-3
+                        if (Pb_ - Pd_) < 0.15 * Pb_ and abs(Vr - b) <= 5e-3 and not unconv: nb = ':narrow-boiling-hysteresis'
+                    except Exception:
+                        pass
+                    self.fail('V-not-met:narrow-boiling-hysteresis' if nb else unconv_sig(f'V-not-met:{pair}', unconv), f'specified V={b}, result V={Vr}; V at ∓resolution: {lo}, {hi} (T={T1}, P={P1})')
 
         # ---------------- oracle D: phase boundary (TP) ----------------------------------
         z = mol / mol.sum()
@@ -1193,7 +1219,7 @@ def compare(impl_line, model_line):
             if ka in ('T', 'P', 'l', 'g'):
                 if ka in ('T', 'P') and fy != fy: continue     # model: field comes from a numerical solve (parameter)
                 if fx != fy: return False
-            elif not _close(fx, fy, 1e-9, 1e-13):
+            elif not _close(fx, fy, 1e-9, 1e-9 if ka in ('lv', 'gv') else 1e-13):
                 return False
     return True
 
@@ -1248,7 +1274,14 @@ def gen_feed(rng, ti=None, nvol=None, inert=None):
 
 
 def gen_case(rng, ti=None):
-    feed, k, inert = gen_feed(rng, ti)
+    if ti in S0_PACKAGES:
+        feed, k, inert = gen_feed(rng, ti, nvol=(1 if rng.random() < 0.5 else None), inert=False)
+        F = sum(float(x.split('=')[1]) for tok in feed.split(' ')[4:] for x in tok.split(':', 1)[1].split(','))
+        parts = feed.split(' ')
+        parts[4] += f',Glucose={round(F * rng.uniform(0.02, 0.05), 6)}'
+        feed = ' '.join(parts)
+    else:
+        feed, k, inert = gen_feed(rng, ti)
     if rng.random() < 0.15: feed = 's' + feed
     ops = [feed]
     P = round(10 ** rng.uniform(math.log10(2e4), math.log10(6e5 if rng.random() < 0.8 else 1e6)), 1)
@@ -1310,10 +1343,10 @@ def gen_case(rng, ti=None):
             ops.append(f'revisit {rng.choice([2, 2, 3])}')        # an earlier specification again, after other pairs
         r2 = rng.random()
         if r2 < 0.2:
-            ops.append(f'scale {rng.choice([2.0, 0.5, 3.0, 10.0, 0.1, 7.0])}')
+            ops.append(f'scale {rng.choice([2.0, 0.5, 3.0, 10.0, 0.1, 7.0, 1e-14, 4e-14, 1e-16, 1e-30, 1e9])}')
         elif r2 < 0.5:
             # history on the same stream: scale (powers of two keep the mole fractions bit-identical), flash again
-            ops.append(f'revle {rng.choice([2.0, 0.25, 3.0, 10.0, 1.5, 0.5, 4.0, 0.1])}')
+            ops.append(f'revle {rng.choice([2.0, 0.25, 3.0, 10.0, 1.5, 0.5, 4.0, 0.1, 1e-15, 2.5e-14, 1e7])}')
             if rng.random() < 0.3: ops.append(f'revle {rng.choice([2.0, 0.5, 8.0, 1.5])}')
         elif r2 < 0.58:
             ops.append(f'rescale {rng.choice([2.0, 0.25, 3.0, 1.5])}')
@@ -1363,7 +1396,10 @@ def spec_grid():
              'one-hc': 'feed 4 300.0 101325.0 l:Heptane=2.5',
              'many': 'feed 0 300.0 101325.0 l:Methanol=4.0,Ethanol=3.5,1-Butanol=2.5',
              'binary': 'feed 1 300.0 101325.0 l:Hexane=6.0,Octane=4.0',
-             'inert': 'feed 3 300.0 101325.0 l:Methanol=5.0,1-Propanol=5.0,Glucose=0.2 g:O2=0.3'}
+             'inert': 'feed 3 300.0 101325.0 l:Methanol=5.0,1-Propanol=5.0,Glucose=0.2 g:O2=0.3',
+             'one+solute0': 'feed 11 300.0 101325.0 l:Ethanol=9.5,Glucose=0.5',
+             'water+solute0': 'feed 12 300.0 101325.0 l:Water=9.6,Glucose=0.4',
+             'many+solute0': 'feed 12 300.0 101325.0 l:Water=5.0,Ethanol=4.7,Glucose=0.3'}
     specs = ['vle TP 345.0 60000.0', 'vle TV 345.0 0.4', 'vle TV 345.0 0.0', 'vle TV 345.0 1.0', 'vle PV 60000.0 0.0', 'vle PV 60000.0 1.0', 'vle TH 345.0 v0.4', 'vle TS 345.0 v0.4',
              'vle PV 60000.0 0.4', 'vle PH 60000.0 v0.4', 'vle PS 60000.0 v0.4']
     out = []
